@@ -82,19 +82,40 @@ def normROp (ci : OpInfo) (all : List Nat) (b : Nat) (p : POp) : Reader.ROp :=
 /-- the operators of a subgraph that reach the file -/
 def writtenOps (ps : PSub) : List POp := (sgOps ps).filter (!·.ignored)
 
+/-- an operator after the reader's surgery: operands (clones put in place), `op.outputs` (the virtual output) -/
+def operated (r : Reader.ROp) (ins outs : List (Option Nat)) : Reader.ROp := { r with inputs := ins, outputs := outs }
+
+/-- the reader's graph surgery on the renumbered written operators, in file order, threading the operator counter `k`, the tensor
+list `T` and the list of virtual outputs: AssignVariable / CallOnce get a virtual output tensor (`Reader.virtualStep`), constant
+weights and bias of convolution-like operators are replaced by reshaped clones appended to `T` (`Reader.cloneStep`). For operators
+that are neither (`opOk`) this is `map normROp` and `T` is unchanged (`normOps_simple`). -/
+def normOps (ci : OpInfo) (all : List Nat) (b : Nat) : List POp → Nat → List TensorD →
+    Except String (List Reader.ROp × List TensorD × List Nat)
+  | [], _, T => pure ([], T, [])
+  | p :: rest, k, T => do
+    let c ← Reader.cloneStep (normRCode ci p).op
+      (Reader.virtualStep (normRCode ci p) k T ((renResults all b p.outputs).map some)).1 (p.inputs.map (ren all b))
+    let rs ← normOps ci all b rest (k + 1) c.1
+    pure (operated (normROp ci all b p) c.2 (Reader.virtualStep (normRCode ci p) k T ((renResults all b p.outputs).map some)).2.1 :: rs.1, rs.2.1,
+          (match (Reader.virtualStep (normRCode ci p) k T ((renResults all b p.outputs).map some)).2.2 with
+            | some v => [v]
+            | none => []) ++ rs.2.2)
+
 /-- one written subgraph as the reader rebuilds it behind the tensors `prev` of the earlier subgraphs -/
 def normSub (ts : List TensorD) (ci : OpInfo) (prev : List TensorD) (ps : PSub) : Except String (SubgraphD × List TensorD) := do
   let own ← (sgAll ts ps).mapM (normTensorAt ts)
+  let r ← normOps ci (sgAll ts ps) prev.length (writtenOps ps) 0 (prev ++ own)
   let outs2 ← outputList ps.sg.originalOutputPositions (sgOuts ps)
   let positions ← Reader.positionsOf (Reader.dedupNat (renList (sgAll ts ps) prev.length outs2)) (renList (sgAll ts ps) prev.length outs2)
   pure ({ name := ps.sg.name, cpu := true,
-          ops := Reader.startupOps (prev ++ own) prev.length (sgAll ts ps).length
-                   ((writtenOps ps).map (normROp ci (sgAll ts ps) prev.length))
-                   (Reader.dedupNat (renList (sgAll ts ps) prev.length ps.sg.originalInputs)) ++
-                 Reader.realOps ((writtenOps ps).map (normROp ci (sgAll ts ps) prev.length)) [],
+          ops := Reader.startupOps r.2.1 prev.length (sgAll ts ps).length r.1
+                   (Reader.dedupNat (renList (sgAll ts ps) prev.length ps.sg.originalInputs)) ++ Reader.realOps r.1 r.2.2,
           originalInputs := renList (sgAll ts ps) prev.length ps.sg.originalInputs, inputTensors := [],
-          outputTensors := Reader.dedupNat (renList (sgAll ts ps) prev.length outs2),
-          originalOutputPositions := some positions, virtualOutputs := [] }, prev ++ own)
+          outputTensors := Reader.dedupNat (renList (sgAll ts ps) prev.length outs2) ++ r.2.2,
+          originalOutputPositions := some positions,
+          virtualOutputs := r.2.2.map fun v => (v, Writer.firstIdx (fun (o : OpD) => o.outputs.contains (some v))
+            (Reader.startupOps r.2.1 prev.length (sgAll ts ps).length r.1
+               (Reader.dedupNat (renList (sgAll ts ps) prev.length ps.sg.originalInputs)) ++ Reader.realOps r.1 r.2.2)) }, r.2.1)
 
 def normSubs (ts : List TensorD) (ci : OpInfo) : List PSub → List TensorD → Except String (List SubgraphD × List TensorD)
   | [], prev => pure ([], prev)
@@ -115,8 +136,8 @@ def normalise (d : Desc) : Except String Desc := do
 
 /-! ## the domain -/
 
-/-- a written operator the assembled theorem covers: no virtual output is created for it (AssignVariable / CallOnce) and it is
-not convolution-like (no reshaped clones of constant weights: that case is `reader_clones_never_written`) -/
+/-- a written operator on which the reader performs no surgery: no virtual output is created for it (AssignVariable / CallOnce)
+and it is not convolution-like (no reshaped clones of constant weights) -/
 def opOk (p : POp) : Bool :=
   p.info.name != "AssignVariable" && p.info.name != "CallOnce" && !p.info.convLike
 
@@ -125,10 +146,11 @@ def inputsNotProduced (ps : PSub) : Bool :=
   ps.sg.originalInputs.all fun g => (writtenOps ps).all fun p => !p.outputs.contains (some g)
 
 def subDomain (ts : List TensorD) (ps : PSub) : Bool :=
-  ps.sg.virtualOutputs.isEmpty &&                                                  -- no virtual outputs to cut off / re-create
-  (writtenOps ps).all opOk &&                                                      -- see `opOk`
   (sgAll ts ps).all (fun g => match ts[g]? with | some td => dataOk td | none => true) &&   -- the reader's `reshape` succeeds
   inputsNotProduced ps                                                             -- see `inputsNotProduced`
+
+/-- no surgery: every written operator of the subgraph is `opOk` -/
+def subSimple (ps : PSub) : Bool := (writtenOps ps).all opOk
 
 def preppedSubs (d : Desc) : List PSub :=
   match (subgraphsToWrite d).mapM (prepSub d.tensors) with
@@ -136,6 +158,7 @@ def preppedSubs (d : Desc) : List PSub :=
   | .error _ => []
 
 def roundtripDomain (d : Desc) : Bool := (preppedSubs d).all (subDomain d.tensors)
+def noSurgery (d : Desc) : Bool := (preppedSubs d).all subSimple
 
 /-! ## general lemmas -/
 
@@ -366,64 +389,102 @@ theorem fileOutputs_some (l : List Nat) : Reader.fileOutputs (l.map some) = .ok 
   rw [List.map_id] at this
   exact this
 
+/-- what the reader side needs to know about a written operator: the code entry it points to parses to `normRCode`, and the operand
+orders coincide -/
+structure OpFacts (ci : OpInfo) (rcodes : List Reader.RCode) (codes : List Code) (p : POp) : Prop where
+  code : ∀ i, opcodeIndex codes p = .ok i → Reader.codeAt rcodes i = .ok (normRCode ci p)
+  flat : (normRCode ci p).op.nng.flat = (normRCode ci p).indices.flat
+
+/-- no surgery on this operator -/
+structure OpSimple (ci : OpInfo) (p : POp) : Prop where
+  name : ((normRCode ci p).op.name == "AssignVariable" || (normRCode ci p).op.name == "CallOnce") = false
+  conv : (normRCode ci p).op.convLike = false
+
 theorem parse_written_operator (ci : OpInfo) (rcodes : List Reader.RCode) (codes : List Code) (all : List Nat) (b : Nat)
     (T : List TensorD) (k : Nat) (p : POp) (o : OperatorT)
-    (hser : serialiseOperator codes all p = .ok o)
-    (hcode : ∀ i, opcodeIndex codes p = .ok i → Reader.codeAt rcodes i = .ok (normRCode ci p))
-    (hflat : (normRCode ci p).op.nng.flat = (normRCode ci p).indices.flat)
-    (hname : ((normRCode ci p).op.name == "AssignVariable" || (normRCode ci p).op.name == "CallOnce") = false)
-    (hconv : (normRCode ci p).op.convLike = false) :
-    Reader.parseOperator rcodes b all.length T k o = .ok (normROp ci all b p, T, none) := by
+    (hser : serialiseOperator codes all p = .ok o) (f : OpFacts ci rcodes codes p) :
+    Reader.parseOperator rcodes b all.length T k o =
+      (Reader.cloneStep (normRCode ci p).op
+          (Reader.virtualStep (normRCode ci p) k T ((renResults all b p.outputs).map some)).1 (p.inputs.map (ren all b))).map fun c =>
+        (operated (normROp ci all b p) c.2 (Reader.virtualStep (normRCode ci p) k T ((renResults all b p.outputs).map some)).2.1, c.1,
+         (Reader.virtualStep (normRCode ci p) k T ((renResults all b p.outputs).map some)).2.2) := by
   obtain ⟨s1, s2, s3, s4, _, _⟩ := serialiseOperator_ok _ _ _ _ hser
   have s5 := serialiseOperator_payload _ _ _ _ hser
-  have hvs : ∀ outs, Reader.virtualStep (normRCode ci p) k T outs = (T, outs, none) := by
-    intro outs; unfold Reader.virtualStep; simp only [hname]; rfl
-  have hcs : ∀ ins, Reader.cloneStep (normRCode ci p).op T ins = .ok (T, ins) := by
-    intro ins; unfold Reader.cloneStep; simp only [hconv]; rfl
   have hint : Reader.resolveIntermediates b all.length o.intermediates = .ok ((renResults all b p.intermediates).map some) := by
     rw [s3]; exact resolve_results all b _
   have hout : Reader.resolveAll b all.length o.outputs = .ok ((renResults all b p.outputs).map some) := by
     rw [s2]; exact resolve_results all b _
   have hin : Reader.resolveAll b all.length o.inputs = .ok (p.inputs.map (ren all b)) := by
     rw [s1]; exact resolve_inputs all b _
-  unfold Reader.parseOperator
-  simp only [hcode _ s4, hin, hout, hint, fileOutputs_some, alignInputs_id _ _ _ hflat, hvs, hcs, s5, bind, Except.bind, pure, Except.pure]
-  unfold normROp
   have hp : (if (normRCode ci p).hasSer = true then writtenPayload p else Reader.noPayload) = writtenPayload p := by
     unfold writtenPayload normRCode
     dsimp only
     cases hasSer p <;> simp
-  rw [hp]
+  unfold Reader.parseOperator
+  simp only [f.code _ s4, hin, hout, hint, fileOutputs_some, alignInputs_id _ _ _ f.flat, s5, hp, bind, Except.bind, pure, Except.pure]
+  cases Reader.cloneStep (normRCode ci p).op
+      (Reader.virtualStep (normRCode ci p) k T ((renResults all b p.outputs).map some)).1 (p.inputs.map (ren all b)) with
+  | error e => rfl
+  | ok c => rfl
 
 /-! ## (d) the operators of a subgraph -/
 
-/-- what the reader side needs to know about a written operator -/
-structure OpFacts (ci : OpInfo) (rcodes : List Reader.RCode) (codes : List Code) (p : POp) : Prop where
-  code : ∀ i, opcodeIndex codes p = .ok i → Reader.codeAt rcodes i = .ok (normRCode ci p)
-  flat : (normRCode ci p).op.nng.flat = (normRCode ci p).indices.flat
-  name : ((normRCode ci p).op.name == "AssignVariable" || (normRCode ci p).op.name == "CallOnce") = false
-  conv : (normRCode ci p).op.convLike = false
-
-theorem parse_written_operators (ci : OpInfo) (rcodes : List Reader.RCode) (codes : List Code) (all : List Nat) (b : Nat)
-    (T : List TensorD) : ∀ (pl : List POp) (ol : List OperatorT) (k : Nat),
+theorem parse_written_operators (ci : OpInfo) (rcodes : List Reader.RCode) (codes : List Code) (all : List Nat) (b : Nat) :
+    ∀ (pl : List POp) (ol : List OperatorT) (k : Nat) (T : List TensorD),
     pl.mapM (serialiseOperator codes all) = .ok ol → (∀ p ∈ pl, OpFacts ci rcodes codes p) →
-    Reader.parseOperators rcodes b all.length ol k T = .ok (pl.map (normROp ci all b), T, [])
-  | [], ol, k, h, _ => by
+    Reader.parseOperators rcodes b all.length ol k T = normOps ci all b pl k T
+  | [], ol, k, T, h, _ => by
     simp [pure, Except.pure] at h
     subst h
     rfl
-  | p :: rest, ol, k, h, hf => by
+  | p :: rest, ol, k, T, h, hf => by
     rw [List.mapM_cons] at h
     obtain ⟨o, ho, h⟩ := bind_ok h
     obtain ⟨os, hos, h⟩ := bind_ok h
     simp only [pure, Except.pure, Except.ok.injEq] at h
     subst h
     have f := hf p (List.mem_cons_self ..)
-    have ih := parse_written_operators ci rcodes codes all b T rest os (k + 1) hos (fun q hq => hf q (List.mem_cons_of_mem _ hq))
-    unfold Reader.parseOperators
-    rw [parse_written_operator ci rcodes codes all b T k p o ho f.code f.flat f.name f.conv]
-    simp only [bind, Except.bind]
-    rw [ih]
+    unfold Reader.parseOperators normOps
+    rw [parse_written_operator ci rcodes codes all b T k p o ho f]
+    cases hc : Reader.cloneStep (normRCode ci p).op
+        (Reader.virtualStep (normRCode ci p) k T ((renResults all b p.outputs).map some)).1 (p.inputs.map (ren all b)) with
+    | error e => rfl
+    | ok c =>
+      have ih := parse_written_operators ci rcodes codes all b rest os (k + 1) c.1 hos (fun q hq => hf q (List.mem_cons_of_mem _ hq))
+      simp only [Except.map, bind, Except.bind]
+      rw [ih]
+      cases normOps ci all b rest (k + 1) c.1 <;> rfl
+
+/-- the surgery leaves the results an operator wrote (`fileOutputs`) alone -/
+theorem normOps_fileOutputs (ci : OpInfo) (all : List Nat) (b : Nat) : ∀ (pl : List POp) (k : Nat) (T : List TensorD)
+    (r : List Reader.ROp × List TensorD × List Nat), normOps ci all b pl k T = .ok r →
+    r.1.map (·.fileOutputs) = pl.map fun p => renResults all b p.outputs
+  | [], k, T, r, h => by
+    simp only [normOps, pure, Except.pure, Except.ok.injEq] at h
+    subst h; rfl
+  | p :: rest, k, T, r, h => by
+    unfold normOps at h
+    obtain ⟨c, _, h⟩ := bind_ok h
+    obtain ⟨rs, hrs, h⟩ := bind_ok h
+    simp only [pure, Except.pure, Except.ok.injEq] at h
+    subst h
+    have ih := normOps_fileOutputs ci all b rest (k + 1) c.1 rs hrs
+    simp only [List.map_cons, ih]
+    rfl
+
+/-- without surgery: the renumbered operators, no new tensor, no virtual output -/
+theorem normOps_simple (ci : OpInfo) (all : List Nat) (b : Nat) : ∀ (pl : List POp) (k : Nat) (T : List TensorD),
+    (∀ p ∈ pl, OpSimple ci p) → normOps ci all b pl k T = .ok (pl.map (normROp ci all b), T, [])
+  | [], k, T, _ => rfl
+  | p :: rest, k, T, hf => by
+    have f := hf p (List.mem_cons_self ..)
+    have hvs : ∀ outs, Reader.virtualStep (normRCode ci p) k T outs = (T, outs, none) := by
+      intro outs; unfold Reader.virtualStep; simp only [f.name]; rfl
+    have hcs : ∀ ins, Reader.cloneStep (normRCode ci p).op T ins = .ok (T, ins) := by
+      intro ins; unfold Reader.cloneStep; simp only [f.conv]; rfl
+    unfold normOps
+    simp only [hvs, hcs, bind, Except.bind]
+    rw [normOps_simple ci all b rest (k + 1) T (fun q hq => hf q (List.mem_cons_of_mem _ hq))]
     rfl
 
 /-- table facts: the row `Custom` the Ethos-U operator is read back as has the operand order the writer uses for `CustomNpuOp`, is
@@ -435,7 +496,29 @@ theorem npu_table_fact : opTable.all (fun info => info.name != "CustomNpuOp" ||
 
 theorem opFacts_of (ci : OpInfo) (hci : lookupOp "Custom" = some ci) (codes : List Code) (opcodes : List OpCodeT)
     (rcodes : List Reader.RCode) (h2 : codes.mapM serialiseOpCode = .ok opcodes) (h3 : opcodes.mapM Reader.parseOpCode = .ok rcodes)
-    (p : POp) (hp : p.info.tableOk = true) (hok : opOk p = true) (hinv : p.info.inv.isSome = true) : OpFacts ci rcodes codes p := by
+    (p : POp) (hp : p.info.tableOk = true) (hinv : p.info.inv.isSome = true) : OpFacts ci rcodes codes p := by
+  obtain ⟨x, hx⟩ := Option.isSome_iff_exists.mp hinv
+  have hmem : p.info ∈ opTable := by
+    unfold OpInfo.tableOk at hp
+    simp only [Bool.and_eq_true, beq_iff_eq] at hp
+    have := hp.1.1
+    unfold lookupOp at this
+    exact List.mem_of_find?_eq_some this
+  refine ⟨fun i hi => codeAt_written ci hci codes opcodes rcodes h2 h3 p hp i hi, ?_⟩
+  unfold normRCode
+  simp only [hx]
+  by_cases hn : p.info.name = "CustomNpuOp"
+  · rw [if_pos hn]
+    have := List.all_eq_true.mp npu_table_fact _ hmem
+    simp only [hn, hci, hx, bne_self_eq_false, Bool.false_or, Bool.and_eq_true, beq_iff_eq] at this
+    exact this.1
+  · rw [if_neg hn]
+    unfold OpInfo.tableOk at hp
+    simp only [hx, Bool.and_eq_true, beq_iff_eq] at hp
+    exact hp.2.1.symm
+
+theorem opSimple_of (ci : OpInfo) (hci : lookupOp "Custom" = some ci) (p : POp) (hp : p.info.tableOk = true) (hok : opOk p = true)
+    (hinv : p.info.inv.isSome = true) : OpSimple ci p := by
   obtain ⟨x, hx⟩ := Option.isSome_iff_exists.mp hinv
   unfold opOk at hok
   simp only [Bool.and_eq_true, bne_iff_ne, ne_eq, Bool.not_eq_true'] at hok
@@ -447,18 +530,7 @@ theorem opFacts_of (ci : OpInfo) (hci : lookupOp "Custom" = some ci) (codes : Li
     have := hp.1.1
     unfold lookupOp at this
     exact List.mem_of_find?_eq_some this
-  refine ⟨fun i hi => codeAt_written ci hci codes opcodes rcodes h2 h3 p hp i hi, ?_, ?_, ?_⟩
-  · unfold normRCode
-    simp only [hx]
-    by_cases hn : p.info.name = "CustomNpuOp"
-    · rw [if_pos hn]
-      have := List.all_eq_true.mp npu_table_fact _ hmem
-      simp only [hn, hci, hx, bne_self_eq_false, Bool.false_or, Bool.and_eq_true, beq_iff_eq] at this
-      exact this.1
-    · rw [if_neg hn]
-      unfold OpInfo.tableOk at hp
-      simp only [hx, Bool.and_eq_true, beq_iff_eq] at hp
-      exact hp.2.1.symm
+  refine ⟨?_, ?_⟩
   · unfold normRCode
     dsimp only
     by_cases hn : p.info.name = "CustomNpuOp"
@@ -491,10 +563,11 @@ theorem ioIndices_written (all : List Nat) (b : Nat) (l : List Nat) :
   simp only [Int.ofNat_eq_natCast, pyIndex_range _ _ hil]
   rfl
 
-theorem inputs_check (ci : OpInfo) (all : List Nat) (b : Nat) (origIn : List Nat) (ops : List POp)
+theorem inputs_check (all : List Nat) (b : Nat) (origIn : List Nat) (ops : List POp) (rops : List Reader.ROp)
+    (hr : rops.map (·.fileOutputs) = ops.map fun p => renResults all b p.outputs)
     (h : (origIn.all fun g => ops.all fun p => !p.outputs.contains (some g)) = true) :
-    (Reader.dedupNat (renList all b origIn)).any (Reader.produced (ops.map (normROp ci all b))) = false := by
-  cases hc : (Reader.dedupNat (renList all b origIn)).any (Reader.produced (ops.map (normROp ci all b))) with
+    (Reader.dedupNat (renList all b origIn)).any (Reader.produced rops) = false := by
+  cases hc : (Reader.dedupNat (renList all b origIn)).any (Reader.produced rops) with
   | false => rfl
   | true =>
     exfalso
@@ -506,8 +579,10 @@ theorem inputs_check (ci : OpInfo) (all : List Nat) (b : Nat) (origIn : List Nat
     obtain ⟨g, hg, hgi⟩ := List.mem_filterMap.mp hi
     unfold Reader.produced at hprod
     obtain ⟨rop, hrop, hcon⟩ := List.any_eq_true.mp hprod
-    obtain ⟨p, hp, rfl⟩ := List.mem_map.mp hrop
-    have hmem : b + i ∈ renResults all b p.outputs := by simpa [normROp] using hcon
+    have hfo : rop.fileOutputs ∈ ops.map fun p => renResults all b p.outputs := by
+      rw [← hr]; exact List.mem_map.mpr ⟨rop, hrop, rfl⟩
+    obtain ⟨p, hp, hpe⟩ := List.mem_map.mp hfo
+    have hmem : b + i ∈ renResults all b p.outputs := by rw [hpe]; simpa using hcon
     unfold renResults at hmem
     obtain ⟨j, hj, hji⟩ := List.mem_map.mp hmem
     obtain ⟨t, ht, htj⟩ := List.mem_filterMap.mp hj
@@ -533,14 +608,17 @@ theorem read_written_subgraph (ts : List TensorD) (ci : OpInfo) (rcodes : List R
     (hinp : inputsNotProduced ps = true) :
     Reader.readSubgraph rcodes bufs prev sg = normSub ts ci prev ps := by
   obtain ⟨outs2, operators, ho, hser, hoe, hi, hou, hn, _⟩ := hloc
-  have hpo := parse_written_operators ci rcodes codes (sgAll ts ps) prev.length (prev ++ own) (writtenOps ps) operators 0 hser hops
-  have hchk : Writer.check (!(Reader.dedupNat (renList (sgAll ts ps) prev.length ps.sg.originalInputs)).any
-      (Reader.produced ((writtenOps ps).map (normROp ci (sgAll ts ps) prev.length)))) "vela-error" = .ok () := by
-    rw [inputs_check ci _ _ _ _ hinp]; rfl
+  have hpo := parse_written_operators ci rcodes codes (sgAll ts ps) prev.length (writtenOps ps) operators 0 (prev ++ own) hser hops
   unfold Reader.readSubgraph normSub
   rw [hlen, hoe, hou, hi, hn]
-  simp only [hparse, hown, ho, hpo, ioIndices_written, hchk, bind, Except.bind, pure, Except.pure, List.append_nil, List.map_nil,
-    Option.getD_some]
+  simp only [hparse, hown, hpo, bind, Except.bind]
+  cases hno : normOps ci (sgAll ts ps) prev.length (writtenOps ps) 0 (prev ++ own) with
+  | error e => rfl
+  | ok r =>
+    have hchk : Writer.check (!(Reader.dedupNat (renList (sgAll ts ps) prev.length ps.sg.originalInputs)).any
+        (Reader.produced r.1)) "vela-error" = .ok () := by
+      rw [inputs_check _ _ _ _ _ (normOps_fileOutputs ci _ _ _ _ _ r hno) hinp]; rfl
+    simp only [ho, ioIndices_written, hchk, bind, Except.bind, pure, Except.pure, Option.getD_some]
 
 /-! ## (f) all subgraphs -/
 
@@ -579,7 +657,8 @@ theorem positionsOf_ok (l : List Nat) : ∃ r, Reader.positionsOf (Reader.dedupN
 
 theorem normSubs_ok (ts : List TensorD) (ci : OpInfo) (rcodes : List Reader.RCode) (codes : List Code)
     (bufs : List (Option Data)) (subs : List PSub) (sgs : List SubGraphT)
-    (h : List.Forall₂ (SubOk ts ci rcodes codes bufs) subs sgs) :
+    (h : List.Forall₂ (SubOk ts ci rcodes codes bufs) subs sgs)
+    (hs : ∀ ps ∈ subs, ∀ p ∈ writtenOps ps, OpSimple ci p) :
     ∀ prev, ∃ r, normSubs ts ci subs prev = .ok r := by
   induction h with
   | nil => intro prev; exact ⟨_, rfl⟩
@@ -589,8 +668,9 @@ theorem normSubs_ok (ts : List TensorD) (ci : OpInfo) (rcodes : List Reader.RCod
     obtain ⟨outs2, _, ho, _⟩ := hab.loc
     unfold normSubs normSub
     obtain ⟨pos, hpos⟩ := positionsOf_ok (renList (sgAll ts ps) prev.length outs2)
-    simp only [ho1, ho, hpos, bind, Except.bind, pure, Except.pure]
-    obtain ⟨r, hr⟩ := ih (prev ++ own)
+    have hno := normOps_simple ci (sgAll ts ps) prev.length (writtenOps ps) 0 (prev ++ own) (hs ps (List.mem_cons_self ..))
+    simp only [ho1, hno, ho, hpos, bind, Except.bind, pure, Except.pure]
+    obtain ⟨r, hr⟩ := ih (fun q hq => hs q (List.mem_cons_of_mem _ hq)) (prev ++ own)
     rw [hr]
     exact ⟨_, rfl⟩
 
@@ -646,9 +726,38 @@ theorem prepSub_ops (ts : List TensorD) (sg : SubgraphD) (ps : PSub) (h : prepSu
   obtain ⟨op, _, hop⟩ := mapM_mem _ _ _ h1 p hp
   exact ⟨op, hop⟩
 
-theorem sgOps_noVirtual (ps : PSub) (h : ps.sg.virtualOutputs = []) : sgOps ps = ps.ops := by
-  unfold sgOps clearVirtual
-  rw [h]; rfl
+/-- cutting off virtual outputs only empties result lists -/
+theorem mem_clearVirtual : ∀ (vo : List (Nat × Option Nat)) (ops : List POp) (p : POp), p ∈ clearVirtual ops vo →
+    ∃ p' ∈ ops, p.info = p'.info ∧ p.ignored = p'.ignored
+  | [], ops, p, h => ⟨p, h, rfl, rfl⟩
+  | v :: rest, ops, p, h => by
+    unfold clearVirtual at h
+    rw [List.foldl_cons] at h
+    obtain ⟨p'', hp'', e1, e2⟩ := mem_clearVirtual rest _ p h
+    cases hv : v.2 with
+    | none => simp only [hv] at hp''; exact ⟨p'', hp'', e1, e2⟩
+    | some k =>
+      simp only [hv] at hp''
+      unfold modifyAt at hp''
+      cases hk : ops[k]? with
+      | none => simp only [hk] at hp''; exact ⟨p'', hp'', e1, e2⟩
+      | some a =>
+        simp only [hk] at hp''
+        rcases List.mem_or_eq_of_mem_set hp'' with hm | rfl
+        · exact ⟨p'', hm, e1, e2⟩
+        · exact ⟨a, List.mem_of_getElem? hk, e1, e2⟩
+
+/-- a written operator has a row of the live table with a serialiser entry -/
+theorem writtenOp_info (ts : List TensorD) (sgd : SubgraphD) (ps : PSub) (hprep : prepSub ts sgd = .ok ps) (p : POp)
+    (hp : p ∈ writtenOps ps) : p.info.tableOk = true ∧ p.info.inv.isSome = true := by
+  unfold writtenOps at hp
+  obtain ⟨hp1, hp2⟩ := List.mem_filter.mp hp
+  unfold sgOps at hp1
+  obtain ⟨p', hp', e1, e2⟩ := mem_clearVirtual _ _ _ hp1
+  obtain ⟨op, hop⟩ := prepSub_ops ts sgd ps hprep p' hp'
+  obtain ⟨_, _, _, _, _, _, _, hinv, _⟩ := prepOp_ok ts op p' hop
+  rw [e1]
+  exact ⟨prepOp_info ts op p' hop, hinv (by rw [← e2]; simpa using hp2)⟩
 
 theorem subOk_of (d : Desc) (ci : OpInfo) (hci : lookupOp "Custom" = some ci) (codes : List Code) (opcodes : List OpCodeT)
     (rcodes : List Reader.RCode) (h2 : codes.mapM serialiseOpCode = .ok opcodes) (h3 : opcodes.mapM Reader.parseOpCode = .ok rcodes)
@@ -657,25 +766,21 @@ theorem subOk_of (d : Desc) (ci : OpInfo) (hci : lookupOp "Custom" = some ci) (c
     (ht : TensorsOk d.tensors (sgAll d.tensors ps) sg.tensors B) :
     SubOk d.tensors ci rcodes codes (((B ++ X).map fun b => ({ data := b } : BufferT)).map Reader.parseBuffer) ps sg := by
   unfold subDomain at hdom
-  simp only [Bool.and_eq_true, List.isEmpty_iff] at hdom
-  obtain ⟨⟨⟨hvo, hops⟩, hdata⟩, hinp⟩ := hdom
+  simp only [Bool.and_eq_true] at hdom
+  obtain ⟨hdata, hinp⟩ := hdom
   obtain ⟨own, o1, _, o3⟩ := parse_written_tensors d.tensors (sgAll d.tensors ps) sg.tensors B X ht (by
     intro g hg td htd
     have := List.all_eq_true.mp hdata g hg
     simpa [htd] using this)
   refine ⟨hloc, ht.1, ⟨own, o1, o3⟩, ?_, hinp⟩
   intro p hp
-  have hp' := hp
-  unfold writtenOps at hp'
-  obtain ⟨hp1, hp2⟩ := List.mem_filter.mp hp'
-  rw [sgOps_noVirtual ps hvo] at hp1
-  obtain ⟨op, hop⟩ := prepSub_ops d.tensors sgd ps hprep p hp1
-  obtain ⟨_, _, _, _, _, _, _, hinv, _⟩ := prepOp_ok d.tensors op p hop
-  exact opFacts_of ci hci codes opcodes rcodes h2 h3 p (prepOp_info d.tensors op p hop) (List.all_eq_true.mp hops p hp)
-    (hinv (by simpa using hp2))
+  obtain ⟨t1, t2⟩ := writtenOp_info d.tensors sgd ps hprep p hp
+  exact opFacts_of ci hci codes opcodes rcodes h2 h3 p t1 t2
 
+/-- the assembled round trip: on the domain, reading the written file and normalising the description are the same computation
+(the same graph description, or the same failure of the reader's cloning); without surgery (`noSurgery`) normalising succeeds -/
 theorem read_writeWith (d : Desc) (enum : List Code) (m : ModelT) (hd : roundtripDomain d = true) (h : writeWith d enum = .ok m) :
-    Reader.read d.version m = normalise d ∧ ∃ nd, normalise d = .ok nd := by
+    Reader.read d.version m = normalise d ∧ (noSurgery d = true → ∃ nd, normalise d = .ok nd) := by
   obtain ⟨subs, opcodes, st, metas, h1, h2, h3, h4, hm, acc, hl⟩ := write_facts d enum m h
   obtain ⟨ci, hci⟩ := Option.isSome_iff_exists.mp custom_exists
   have hciE : lookupOpE "Custom" = .ok ci := by unfold lookupOpE; rw [hci]; rfl
@@ -706,15 +811,22 @@ theorem read_writeWith (d : Desc) (enum : List Code) (m : ModelT) (hd : roundtri
       .ok (metas.map fun mw => { nameIsBytes := true, name := mw.name, data := normValues mw.data }) := by
     rw [hbufs, hmd]; exact read_written_metadata st.buffers metas
   have e4 : metadataToWrite d (subs.map (sgAll d.tensors)) = .ok metas := by rw [← acc.maps_eq]; exact h4
-  obtain ⟨r, hr⟩ := normSubs_ok _ _ _ _ _ _ _ hall []
-  have hnorm : normalise d = .ok (Desc.mk r.2 r.1
-      (metas.map fun mw => { nameIsBytes := true, name := mw.name, data := normValues mw.data }) d.version) := by
+  constructor
+  · unfold Reader.read normalise
+    rw [hopc]
+    simp only [h1, hciE, h3', e2, e3, e4, bind, Except.bind, pure, Except.pure]
+  · intro hns
+    have hsimple : ∀ ps ∈ subs, ∀ p ∈ writtenOps ps, OpSimple ci p := by
+      unfold noSurgery preppedSubs at hns
+      rw [h1] at hns
+      intro ps hps p hp
+      obtain ⟨sgd, _, hprep⟩ := mapM_mem _ _ _ h1 _ hps
+      obtain ⟨t1, t2⟩ := writtenOp_info d.tensors sgd ps hprep p hp
+      have hok := List.all_eq_true.mp (List.all_eq_true.mp hns ps hps) p hp
+      exact opSimple_of ci hci p t1 hok t2
+    obtain ⟨r, hr⟩ := normSubs_ok _ _ _ _ _ _ _ hall hsimple []
     unfold normalise
     simp only [h1, hciE, hr, e4, bind, Except.bind, pure, Except.pure]
-  refine ⟨?_, _, hnorm⟩
-  rw [hnorm]
-  unfold Reader.read
-  rw [hopc] at *
-  simp only [h3', e2, hr, e3, bind, Except.bind, pure, Except.pure]
+    exact ⟨_, rfl⟩
 
 end VelaVerif.Tflite.Roundtrip
